@@ -112,7 +112,7 @@ func init() {
 func init() {
 	addProp(&propDef{
 		ID: "C08", Check: "syntax", Level: "exploration",
-		Rule: "(i) every non-empty string up to the length bound over 22 class representatives (20 bytes and 2 multi-byte characters whose low code-point byte is an ASCII letter), (ii) every sequence of lexemes up to the bound joined by nothing / a space / a tab, each against two declaration sets so that every name occurs declared and undeclared; reference = leftmost-longest tokenizer of the lexical conventions (DESIGN.md 4.5) + generic Earley recogniser over the EBNF given as data + the two context conditions; judged: compiled <=> well-formed, error position within the first offending lexeme and <= len(spec), no hook runs on rejection, tokens of an accepted spec partition its non-blank bytes; non-trivial = the string lexes to >= 2 tokens or is rejected at a position > 0; every rejected spec is also run as `app -v` (version flag declared) and `app --help`: the same panic with the same position, nothing printed instead; every accepted spec is run a second time on the same instance; spaces (vi) blanks and look-alikes, (vii) declaration set {d/dry-run, k/keep_all; SRC_DIR}",
+		Rule: "(i) every non-empty string up to the length bound over 22 class representatives (20 bytes and 2 multi-byte characters whose low code-point byte is an ASCII letter), (ii) every sequence of lexemes up to the bound joined by nothing / a space / a tab, each against two declaration sets so that every name occurs declared and undeclared; reference = leftmost-longest tokenizer of the lexical conventions (DESIGN.md 4.5) + generic Earley recogniser over the EBNF given as data + the two context conditions; judged: compiled <=> well-formed, error position within the first offending lexeme and <= len(spec), no hook runs on rejection, tokens of an accepted spec partition its non-blank bytes; non-trivial = the string lexes to >= 2 tokens or is rejected at a position > 0; every rejected spec is also run as `app -v` (version flag declared) and `app --help`: the same panic with the same position, nothing printed instead; every accepted spec is run a second time on the same instance; spaces (vi) blanks and look-alikes, (vii) declaration set {d/dry-run, k/keep_all; SRC_DIR}; space (viii): annotation fragments after four non-empty prefixes",
 		Assumptions: []string{"lexical conventions not fixed by the documentation are taken from the code and listed in DESIGN.md 4.5 (e.g. `--` is the end-of-options token only before a space or the end of the string)"},
 	})
 }
@@ -120,7 +120,7 @@ func init() {
 func init() {
 	addProp(&propDef{
 		ID: "C04", Check: "route", Level: "exploration",
-		Rule: "command trees: the shapes listed under bounds (depth <=2 quick / <=3 thorough, fan-out 2, 1-2 aliases, one alias equal to a value used at another level) x every assignment of the per-level declaration/spec pairs {none, `[-f]`, `X`, `[-f] X`, `[X]`, `-f X...`, `[-f] [-- X...]`} x every target command x every alias combination along its path x every combination of per-level argvs from {(empty), -f, x, -f x, x y, -z, --, -- x, -f -- -f} that do not name a direct sub-command; each invocation runs on a freshly built application; the reference router splits at the first token naming a direct child, validates the prefix with the reference matcher and recurses; judged: exactly the addressed Action ran once, each level holds its own tokens, or the first rejecting level yields an error and nothing ran; non-trivial = invocations reaching depth >= 1; versioned trees: the root declares Version(\"v version\"), levels `[-f] X` or (below the root) `[-v] [X]` whose flag is spelled -v/--version - a version flag that is not the first argument is routed like any other token",
+		Rule: "command trees: the shapes listed under bounds (depth <=2 quick / <=3 thorough, fan-out 2, 1-2 aliases, one alias equal to a value used at another level) x every assignment of the per-level declaration/spec pairs {none, `[-f]`, `X`, `[-f] X`, `[X]`, `-f X...`, `[-f] [-- X...]`} x every target command x every alias combination along its path x every combination of per-level argvs from {(empty), -f, x, -f x, x y, -z, --, -- x, -f -- -f} that do not name a direct sub-command; each invocation runs on a freshly built application; the reference router splits at the first token naming a direct child, validates the prefix with the reference matcher and recurses; judged: exactly the addressed Action ran once, each level holds its own tokens, or the first rejecting level yields an error and nothing ran; non-trivial = invocations reaching depth >= 1; versioned trees: the root declares Version(\"v version\"), levels `[-f] X` or (below the root) `[-v] [X]` whose flag is spelled -v/--version - a version flag that is not the first argument is routed like any other token; command names with a comma, a dot, an equals sign, non-ASCII letters, upper case, one a prefix of another: every alias routes, fragments do not",
 		Assumptions: []string{"per-level validation uses the reference semantics of DESIGN.md section 4"},
 	})
 }
@@ -145,7 +145,7 @@ func init() {
 	vrule := "product of: the seven built-in types x {option with spec `[-x...]`, argument with spec `[X...]`} x {value-returning, *Ptr} declaration forms x default {zero, non-zero} x environment lists of 0, 1 or 2 variables each {unset, empty, valid, invalid, (multi) list with blanks, list with an invalid element} x command lines giving the value 0, 1 or 2 times in every spelling; plus, on the same application instance, a second Run whose command line gives one value (it must replace whatever the first parse left); every case with the item on the application and on a lazily initialised sub-command; all cases distinct by construction; non-trivial = at least two of {command line, environment, default} offer a value"
 	addProp(&propDef{
 		ID: "C06", Check: "values", Level: "exploration",
-		Rule:        vrule + "; judged: the variable read inside the Action equals the 10-line reference (command-line values if any - multi: exactly those, single: the last; else the first non-empty valid variable; else the default); one variable behind two declarations (*Ptr forms, Var): 8 types x {option+argument, two options, two arguments} x every subset given x {root, sub-command}: the variable holds the value of a declaration that was given one; *Ptr forms declare over pre-filled variables; every case also with HideValue; env state padded-single (blanks make a number invalid, belong to a string); command lines spelling the value the variable already holds",
+		Rule:        vrule + "; judged: the variable read inside the Action equals the 10-line reference (command-line values if any - multi: exactly those, single: the last; else the first non-empty valid variable; else the default); one variable behind two declarations (*Ptr forms, Var): 8 types x {option+argument, two options, two arguments} x every subset given x {root, sub-command}: the variable holds the value of a declaration that was given one; *Ptr forms declare over pre-filled variables; every case also with HideValue; env state padded-single (blanks make a number invalid, belong to a string); command lines spelling the value the variable already holds; one default slice behind two list declarations: a value written for one never changes the other",
 		Assumptions: []string{"validity of the few environment tokens used here is obvious (42 / zz, 2.25 / zz, true / maybe); agreement with strconv on arbitrary tokens is C13"},
 	})
 	addProp(&propDef{
@@ -192,7 +192,7 @@ func init() {
 func init() {
 	addProp(&propDef{
 		ID: "C17", Check: "helptext", Level: "exploration",
-		Rule: "every single-item declaration over the full variant product (option name lists, environment lists, the seven built-in types and four custom flag.Value types (with and without IsBoolFlag / IsDefault) with zero / non-zero default, HideValue, empty / one-line / three-line descriptions; arguments alike; sub-commands with 1-3 aliases, Hidden, LongDesc) and every declaration set of <= 2 arguments + <= 2 options + <= 2 sub-commands over 6 variants per item, each at depth 0 and 1, short help (printed on a rejected invocation) and long help (--help); an environment variable named by an item is SET while the application is declared; the captured text is compared, after whitespace normalisation, with the ordered rows of a reference renderer (usage line with path, spec or the synthesised spec, COMMAND marker; description or long description; Arguments; Options with first short and first long name; non-hidden Commands with all aliases; env lists; declared defaults unless hidden), and hidden aliases must not occur anywhere; non-trivial = declarations with at least two items",
+		Rule: "every single-item declaration over the full variant product (option name lists, environment lists, the seven built-in types and four custom flag.Value types (with and without IsBoolFlag / IsDefault) with zero / non-zero default, HideValue, empty / one-line / three-line descriptions; arguments alike; sub-commands with 1-3 aliases, Hidden, LongDesc) and every declaration set of <= 2 arguments + <= 2 options + <= 2 sub-commands over 6 variants per item, each at depth 0 and 1, short help (printed on a rejected invocation) and long help (--help); an environment variable named by an item is SET while the application is declared; the captured text is compared, after whitespace normalisation, with the ordered rows of a reference renderer (usage line with path, spec or the synthesised spec, COMMAND marker; description or long description; Arguments; Options with first short and first long name; non-hidden Commands with all aliases; env lists; declared defaults unless hidden), and hidden aliases must not occur anywhere; non-trivial = declarations with at least two items; every root-level case asks for the help three times on the same instance: identical output",
 		Assumptions: []string{"how each built-in type prints its default (\"dflt\" quoted, [7, 8], 0 for a zero int/float, nothing for false / empty) is taken from the repository's golden help files"},
 	})
 }
